@@ -197,9 +197,13 @@ ActiveReported == \A s \in Syms :
    LET rep == SelectSeq(st.alist[s], LAMBDA i : st.ord[i].st = "A")
    IN SeqSet(rep) = ActiveIds(st, s) /\ Len(rep) = Cardinality(ActiveIds(st, s))
 TradeCount(S, i) == Count(Flatten(S.trades), i) + Cardinality({s \in Syms : i \in SeqSet(S.temp[s])})
+\* (stated on the concatenation of all trade order lists: no order twice, and exactly the executed ones)
+RECURSIVE TempCat(_, _)
+TempCat(S, ss) == IF ss = {} THEN <<>> ELSE LET s == CHOOSE x \in ss : TRUE IN S.temp[s] \o TempCat(S, ss \ {s})
 OneTradeOf(S) ==
-   /\ \A i \in 1..Len(S.ord) : TradeCount(S, i) = (IF S.ord[i].st = "E" THEN 1 ELSE 0)
-   /\ \A s \in Syms : Len(S.temp[s]) = Cardinality(SeqSet(S.temp[s]))
+   LET all == Flatten(S.trades) \o TempCat(S, Syms) IN
+   /\ Len(all) = Cardinality(SeqSet(all))
+   /\ SeqSet(all) = {i \in 1..Len(S.ord) : S.ord[i].st = "E"}
 ExecutedInExactlyOneTrade == OneTradeOf(st)
 \* used as INVARIANTs of the as-is configurations: print the shortest history that breaks the property
 Cex(name, ok) == ok \/ (PrintT(<<"CEX", name, ToJson([hist |-> hist, cur0 |-> st.c0])>>) /\ FALSE)
